@@ -1,10 +1,15 @@
 """C03 — per-property knobs of ./check (see DESIGN.md §6 C03, notes/C03.md)."""
 import re
 THEOREMS_TIED = ["Rustic.Props.C03.every_prefix_consistent", "Rustic.Props.C03.publish_protocol_safe",
-                 "Rustic.Props.C03.prune_protocol_safe", "Rustic.Props.C03.monitor_sound"]
+                 "Rustic.Props.C03.prune_protocol_safe", "Rustic.Props.C03.monitor_sound",
+                 "Rustic.Props.C03.index_lists_only_written_packs", "Rustic.Props.C03.failed_op_reports_error"]
 
 TRUSTED = [
     "hand-written abstract protocol model lean/Rustic/Model/Repo.lean (storage = pack / index / snapshot files; Consistent = index sound + every snapshot closure indexed)",
+    "hand-written packer / file-writer / indexer actor model lean/Rustic/Model/PackerActor.lean (queue, result stream with read-ahead, shared indexer with the "
+    "auto-save rule, finalize); tied to the code by the writer-language and auto-save-rule replay of `c03 big` traces with the generated constant C03_INDEXER_MAX_COUNT",
+    "occurrence-class abstraction of blob keys for `c03 big` traces (harness/src/c03.rs abstract_tokens_classes): keys occurring in exactly the same packs, index "
+    "entries and snapshot closures are identified",
     "trace abstraction in harness/src/c03.rs: backend log of MemBackend -> abstract ops (index files decoded with the key through Repository::stream_files, "
     "snapshot closures by Repository::ls on the union of the stores before and after)",
     "MemBackend fault injection (crash_at / fail_only) of harness/src/repo.rs",
@@ -14,28 +19,35 @@ ASSUMPTIONS = [
     "linearisations are the ones observed on MemBackend (the packers' writer threads are real threads)",
     "a blob listed by an index entry is in the pack file (index truthful) — established for the generated states by check(read_data) before the command",
 ]
-RULE = ("one op line per (command, seed): commands backup, forget, prune (non-instant: deletes packs marked by an earlier prune, repacks, marks), prune-instant "
-        "(no early-delete-index), merge, repair snapshots (after losing a data pack), repair index --read-all, config change, key add; states from 3 backups "
-        "of an evolving source with small pack sizes. The trace (embedded at generation time from a real run) is judged by the Lean monitor at EVERY prefix; "
+RULE = ("one op line per (command, seed): commands backup, forget, prune (non-instant: deletes packs marked by an earlier prune, repacks, marks; options by seed), "
+        "prune-instant (no early-delete-index), merge, copy (into a non-empty destination), rewrite (glob by seed, with forget), repair snapshots (after losing a "
+        "data pack), repair index --read-all, config change (OneConfigBackend), key add, key remove; states from 2-4 backups of an evolving source with small "
+        "pack sizes; plus `c03 big`: a backup of more than MAX_COUNT (50 000) tiny blobs so that the indexer auto-saves an index file mid-run, faults on the pack "
+        "writes / index write around the auto-save, oracles: every listed pack exists, check(read_data), retry of the backup is clean and reads back. The trace (embedded at generation time from a real run) is judged by the Lean monitor at EVERY prefix; "
         "exec re-runs the real command with crash_at=k and fail_only=k (quick: ~12 sampled k incl. first/last; thorough: every k) and checks the stored state "
         "with check(read_data) + read-back of every visible snapshot. Non-trivial = trace with at least 2 operations.")
 EXPLANATION = ("Theorems: operation lemmas (writePack always; writeIndex iff listed packs stored; writeSnapshot iff closure indexed; removeIndex/removePack "
                "under coverage premises); every prefix of a step-wise safe run is consistent; protocol theorems for backup/copy/merge/rewrite/repair-snapshots "
                "(packs -> index -> snapshots -> removals), forget, config/key, prune (writes -> old index files -> old packs); negative results with witnesses "
-               "(repair-snapshots order before the fix, repair-index --read-all, early-delete-index, index-before-pack); a failed op stops the protocol in a "
-               "prefix state. Correspondence: the real command's decoded trace is consistent after every prefix and in the command's phase language; direct "
+               "(repair-snapshots order before the fix, repair-index --read-all, early-delete-index, index-before-pack); a failed op stops the sequential protocol in a "
+               "prefix state; on the packer/file-writer/indexer actor model, for every schedule (interleaving of all stages of all writers and choice of failing "
+               "operations): index_lists_only_written_packs (every stored index file, auto-saved or final, lists only written packs) and failed_op_reports_error "
+               "(result Ok iff no storage operation failed). Correspondence: the real command's decoded trace is consistent after every prefix and in the command's phase language; direct "
                "oracles on the real code for crash_at=k and fail_only=k.")
 
 
 def nontrivial(op, obs):
     t = op.split(" ")
-    return len(t) >= 6 and t[5].count(";") >= 1
+    run = t[5] if len(t) >= 6 and t[1] == "mon" else (t[4] if len(t) >= 5 and t[1] == "big" else "")
+    return run.count(";") >= 1 or run == "O"
 
 
 def finding_key(op, impl, model):
     t = op.split(" ")
     cmd = t[2] if len(t) > 2 else "?"
-    k = "c03.mon." + cmd
+    if len(t) > 1 and t[1] == "big":
+        cmd = "big" + cmd.split(",")[0]
+    k = "c03." + (t[1] if len(t) > 1 else "mon") + "." + cmd
     if impl.startswith(("panic", "oracle-fail")):
         k += ":" + re.sub(r"@\d+/\d+$", "", impl.split(" ")[0])[:90]
     elif model.startswith("bad:"):
